@@ -805,6 +805,19 @@ func c19InsertInto(r *Run, ff []gts.Feature, f gts.Feature) {
 	if c19Multiset(got) != c19Multiset(append(append([]gts.Feature{}, ff...), f)) {
 		r.fail(Failure{Oracle: "Insert returns the same features plus the new one", Op: line, Got: c19EncTable(got)})
 	}
+	// the same table value (backing array with spare cells, as repeated Insert / append leave it)
+	// receives a second feature: the receiver and the first result still hold their features
+	base := make(gts.FeatureSlice, len(ff), len(ff)+3)
+	copy(base, ff)
+	first := base.Insert(f)
+	w1, wb := c19EncTable(first), c19EncTable(base)
+	_ = base.Insert(gts.Feature{Key: "zz_second", Loc: gts.Point(0)})
+	_ = base.Insert(gts.Feature{Key: "zz_third", Loc: gts.Range(0, 1<<20)})
+	r.count("insert/second insertion into the same table value")
+	if c19EncTable(first) != w1 || c19EncTable(base) != wb {
+		r.fail(Failure{Oracle: "Insert: the receiver and an earlier result keep their features when the same table value receives another feature (spare capacity)", Op: line,
+			Got: c19EncTable(first) + " / " + c19EncTable(base), Want: w1 + " / " + wb})
+	}
 }
 
 // c19Order: the order axioms on a triple.
@@ -987,6 +1000,32 @@ func propC19(r *Run) {
 					}
 				}
 			}
+		}
+	}
+
+	// (3b) strand filters: three outcomes (forward / reverse / both), every combinator over the
+	// two predicates, on single-strand, mixed-strand and nested locations
+	strandLocs := append([]gts.Location{}, locs...)
+	for _, a := range small {
+		for _, b := range small {
+			ca, cb := gts.Complemented{Location: a}, gts.Complemented{Location: b}
+			strandLocs = append(strandLocs, gts.Joined{ca, b}, gts.Joined{a, cb}, gts.Joined{ca, cb}, gts.Ordered{ca, b},
+				gts.Complemented{Location: gts.Joined{ca, b}}, gts.Joined{gts.Ordered{a, cb}, b}, gts.Joined{gts.Joined{ca, cb}, cb},
+				gts.Complemented{Location: gts.Complemented{Location: a}})
+		}
+	}
+	for k := 0; k < 300; k++ {
+		strandLocs = append(strandLocs, genLoc(r.rng, 3, 8, 4, true))
+	}
+	fwd, rev := c19Expr{op: "fwd"}, c19Expr{op: "rev"}
+	strandExprs := []c19Expr{fwd, rev, {op: "not", kids: []c19Expr{fwd}}, {op: "not", kids: []c19Expr{rev}},
+		{op: "or", kids: []c19Expr{fwd, rev}}, {op: "and", kids: []c19Expr{fwd, rev}},
+		{op: "and", kids: []c19Expr{{op: "not", kids: []c19Expr{fwd}}, {op: "not", kids: []c19Expr{rev}}}}}
+	for _, l := range strandLocs {
+		f := gts.Feature{Key: "gene", Loc: l}
+		r.count(fmt.Sprintf("strand/spec=%d", c19SpecStrand(l)))
+		for _, e := range strandExprs {
+			c19Filter(r, e, []gts.Feature{f})
 		}
 	}
 
